@@ -35,6 +35,8 @@ func gmap(kv ...interface{}) *tengo.Map {
 var lits = []litDef{
 	{"flat", "", "[1, 2, 3]", func() tengo.Object { return garr(gi(1), gi(2), gi(3)) }},
 	{"nested", "", "[[1], [2]]", func() tengo.Object { return garr(garr(gi(1)), garr(gi(2))) }},
+	// a mutable child that is NOT the last element (the last one needs no freezing)
+	{"arr-then-scalar", "", "[[1, 2], 7]", func() tengo.Object { return garr(garr(gi(1), gi(2)), gi(7)) }},
 	{"map", "", "{a: 1, b: [2]}", func() tengo.Object { return gmap("a", gi(1), "b", garr(gi(2))) }},
 	{"shared", "x := [1]; ", "[x, x]", func() tengo.Object { x := garr(gi(1)); return garr(x, x) }},
 	{"arr-map-arr", "", "[{k: [1]}]", func() tengo.Object { return garr(gmap("k", garr(gi(1)))) }},
